@@ -489,6 +489,13 @@ def r10(ctx):
         return
     bad = []
     n_left = n_right = 0
+    # the descent may accumulate in a copy of the offset (a helper's own `let mut offset = offset`,
+    # inlined): the accumulator of the descent is the copy that some round of the descent changes
+    copies = [l for l, v in enter[0].env.items() if l != acc and nm(l) and lfd(v) == {nm(acc): 1}]
+    for l in copies:
+        if any(l in p_.env and lfd(p_.env[l]) != {nm(l): 1} for p_ in rounds) and not any(acc in p_.env and lfd(p_.env[acc]) != {nm(acc): 1} for p_ in rounds):
+            acc = l
+            break
     for p_ in rounds:
         lt = [v for k, v in p_.cond.items() if k.startswith("Lt(index, index(")]
         calls = [c_.split("::")[-1] for c_, _, _ in p_.calls]
